@@ -17,8 +17,8 @@ import shutil
 import subprocess
 import sys
 
-TARGETS = ["SER_E1", "SER_E2", "SER_FR", "SUM_VECTOR", "LAGRANGE", "G2_VECTOR", "VERIFY", "MULTI"]
-MAXLEN = {"SER_E1": 120, "SER_E2": 220, "SER_FR": 80, "SUM_VECTOR": 48 * 12, "LAGRANGE": 1 + 25 + 25 * 48, "G2_VECTOR": 96 * 5, "VERIFY": 1 + 128 + 48 * 9, "MULTI": 80}
+TARGETS = ["SER_E1", "SER_E2", "SER_FR", "SUM_VECTOR", "LAGRANGE", "G2_VECTOR", "VERIFY", "MULTI", "POLY"]
+MAXLEN = {"SER_E1": 120, "SER_E2": 220, "SER_FR": 80, "SUM_VECTOR": 48 * 12, "LAGRANGE": 1 + 25 + 25 * 48, "G2_VECTOR": 96 * 5, "VERIFY": 1 + 128 + 48 * 9, "MULTI": 80, "POLY": 2 + 3 * 6}
 
 
 def out_dir(repo, work):
